@@ -299,6 +299,31 @@ func ruleOwn10(c *Ctx, r *Reporter) {
 							if src, ok := fa.X.(*ssa.Call); ok && calleeObj(&src.Call) == cloneCat {
 								okSrc = true
 							}
+							// the clone handed to an unexported method of the transaction: a Catalog.Clone() at every call site
+							if p, ok := fa.X.(*ssa.Parameter); ok {
+								if callers, complete := allCallers(p.Parent()); complete && len(callers) > 0 {
+									idx := -1
+									for i, q := range p.Parent().Params {
+										if q == p {
+											idx = i
+										}
+									}
+									all := idx >= 0
+									for _, ci := range callers {
+										if !all || idx >= len(ci.Common().Args) {
+											all = false
+											break
+										}
+										src, ok := stripValue(ci.Common().Args[idx]).(*ssa.Call)
+										if !ok || calleeObj(&src.Call) != cloneCat {
+											all = false
+										}
+									}
+									if all {
+										okSrc = true
+									}
+								}
+							}
 						}
 					}
 				case *ssa.Extract:
